@@ -32,6 +32,7 @@ struct Profile {
   int pm_io_error = 0;        // a syscall of ninja fails
   int pm_editor = 0;          // external edit while a build runs
   int pm_jobserver = 0;       // build runs as jobserver client
+  bool regen_may_fail = false; // the manifest's own generator command can fail too (C05)
   int pm_tty = 0;             // smart terminal
   int pm_load = 0;            // -l
   bool buggify = true;
